@@ -438,6 +438,7 @@ vf::Result fcheck(const FCase& cs) {
     if (no_ack) {
         t.MMIOWrite(0x206, 0x0400);
         t.MMIOWrite(0x208, 0x0200);
+        t.MMIOWrite(0x20A, 0x0400); // timer 0 is also routed to a second core line: every line it is routed to must be raised
         vf::klass("facade: controller never acknowledged, delivery observed at the core");
     }
     for (size_t i = 0; i < cs.size(); ++i) {
@@ -514,6 +515,11 @@ vf::Result fcheck(const FCase& cs) {
                                                                                                                           : " raised the core line although its counter did not go from 1 to 0"), i);
                 regs.ip[w] = 0;
                 acked[w] = pre[w];
+                if (w == 0) {
+                    if ((regs.ip[2] != 0) != expected)
+                        return fail("C15:facade:delivery:timer0:second-line", std::string("timer 0 is routed to int0 and int2; int2 was ") + (expected ? "not raised with int0" : "raised without a 1 -> 0 crossing"), i);
+                    regs.ip[2] = 0;
+                }
             }
         }
     }
